@@ -1008,6 +1008,10 @@ class Evaluator:
                 self._in_getattribute.discard(id(obj))
         if attr == "__getattribute__":
             return _NativeFn(lambda name: self.getattr(obj, name, node))
+        if obj.cinfo is None and "__real_names__" in obj.attrs and attr not in obj.attrs["__real_names__"]:
+            # a stand-in for an object of a PROJECT class that lists every name the real class ever binds: a name outside that list is
+            # missing on the real object as well (the probe-then-set idiom `try: o.memo / except AttributeError: o.memo = ...`)
+            raise Raised("AttributeError", f"{obj!r} has no attribute {attr}", node)
         if obj.cinfo is None and not obj.attrs.get("__strict__"):
             # a record is the checker's stand-in for an external object: a missing attribute is a gap of the model
             raise Undecided(f"the model of external object {obj!r} has no attribute '{attr}'")
